@@ -1,2 +1,276 @@
+//! `search`: runs the real `Search::search` in-process under deterministic limits and emits everything
+//! observable: the engine's own info / bestmove lines, every cache insert seen by the observer hook,
+//! the final counters and a checksum of the cache.
 use super::*;
-pub fn search_stream(_args: &[String]) {}
+use crate::board::transposition_table::{Bounds, TTEntry, TRANSPOSITION_TABLE};
+use crate::board::verif as bv;
+use crate::evaluate::simple_evaluator::SimpleEvaluator;
+use crate::search::limits::SearchLimits;
+use crate::search::verif as sv;
+use crate::search::Search;
+use std::sync::atomic::Ordering;
+
+fn bound_code(b: Bounds) -> u64 {
+    match b {
+        Bounds::Exact => 0,
+        Bounds::Lower => 1,
+        Bounds::Upper => 2,
+    }
+}
+
+fn ply_hash(p: &Ply) -> u64 {
+    let oc = |k: Option<Kind>| k.map_or(12u64, |k| kind_code(k) as u64);
+    let mut h: u64 = u64::from(p.start.u8());
+    h = h * 64 + u64::from(p.dest.u8());
+    h = h * 13 + kind_code(p.piece) as u64;
+    h = h * 13 + oc(p.captured_piece);
+    h = h * 13 + oc(p.promoted_to);
+    h = h * 8 + u64::from(p.is_castles) * 4 + u64::from(p.en_passant) * 2 + u64::from(p.is_double_pawn_push);
+    h
+}
+
+fn entry_hash(key: u64, e: &TTEntry) -> u64 {
+    let mut h = key;
+    h = h.wrapping_mul(0x100_0000_01B3).wrapping_add((i64::from(e.score) + 32768) as u64);
+    h = h.wrapping_mul(0x100_0000_01B3).wrapping_add(u64::from(e.depth));
+    h = h.wrapping_mul(0x100_0000_01B3).wrapping_add(bound_code(e.bound));
+    h = h.wrapping_mul(0x100_0000_01B3).wrapping_add(ply_hash(&e.best_ply));
+    h
+}
+
+fn tt_summary() -> (usize, u64) {
+    let tt = TRANSPOSITION_TABLE.read().unwrap();
+    let mut sum = 0u64;
+    for (k, e) in tt.iter() {
+        sum = sum.wrapping_add(entry_hash(bv::key_u64(*k), e));
+    }
+    (tt.len(), sum)
+}
+
+pub struct Case {
+    pub fen: String,
+    pub moves: Vec<String>,
+    pub depth: u8,
+    pub nodes: Option<u64>,
+    pub stop: u64,
+    pub cache: &'static str, // fresh | keep | off
+}
+
+pub fn setup_board(fen: &str, moves: &[String]) -> Option<Board> {
+    let mut b = Board::from_fen(fen);
+    for m in moves {
+        let p = b.find_move(m).ok()?;
+        b.make_move(p);
+    }
+    Some(b)
+}
+
+pub fn run_case(c: &Case) {
+    println!(
+        "S fen=[{}] moves=[{}] depth={} nodes={} stop={} cache={}",
+        c.fen,
+        c.moves.join(" "),
+        c.depth,
+        c.nodes.map_or("-".to_string(), |n| n.to_string()),
+        c.stop,
+        c.cache
+    );
+    let Some(board) = setup_board(&c.fen, &c.moves) else {
+        println!("X bad-case");
+        return;
+    };
+    if c.cache != "keep" {
+        TRANSPOSITION_TABLE.write().unwrap().clear();
+    }
+    sv::CACHE_OFF.store(c.cache == "off", Ordering::Relaxed);
+    sv::POLLS.store(0, Ordering::Relaxed);
+    sv::STOP_AT_POLL.store(if c.stop == 0 { u64::MAX } else { c.stop }, Ordering::Relaxed);
+    *sv::RECORDER.lock().unwrap() = Some(Vec::new());
+    let limits = SearchLimits::new().nodes(c.nodes);
+    let mut search = Search::new(&board, Some(limits));
+    let outcome = std::panic::catch_unwind(std::panic::AssertUnwindSafe(|| {
+        search.search(&SimpleEvaluator, Some(c.depth));
+    }));
+    sv::STOP_AT_POLL.store(0, Ordering::Relaxed);
+    sv::CACHE_OFF.store(false, Ordering::Relaxed);
+    let writes = sv::RECORDER.lock().unwrap().take().unwrap_or_default();
+    if outcome.is_err() {
+        println!("X panic");
+    }
+    for w in &writes {
+        println!(
+            "W {} {:x} {} {} {} {} {} {} {}",
+            w.site,
+            bv::key_u64(w.key),
+            w.entry.score,
+            w.entry.depth,
+            bound_code(w.entry.bound),
+            move_fields(&w.entry.best_ply),
+            w.nodes,
+            u8::from(w.running),
+            w.ply
+        );
+    }
+    let (n, sum) = tt_summary();
+    let root = TRANSPOSITION_TABLE.read().unwrap().get(&board.zkey).copied();
+    println!(
+        "R nodes={} seldepth={} best={} score={} polls={} ttsize={} ttsum={:x} root={}",
+        search.get_nodes(),
+        sv::seldepth(&search),
+        sv::best_move(&search).map_or("-".to_string(), |m| move_fields(&m)),
+        sv::best_score(&search).map_or("-".to_string(), |s| s.to_string()),
+        sv::POLLS.load(Ordering::Relaxed),
+        n,
+        sum,
+        root.map_or("-".to_string(), |e| format!("{}:{}:{}:{}", e.score, e.depth, bound_code(e.bound), move_fields(&e.best_ply)))
+    );
+}
+
+/// positions: seeds, bench FENs, and positions reached by random play (kept with their move history)
+fn positions(rng: &mut Rng, n: usize, bench: bool) -> Vec<(String, Vec<String>)> {
+    let mut v: Vec<(String, Vec<String>)> = vec![];
+    for f in super::walk::SEEDS.iter() {
+        v.push((f.to_string(), vec![]));
+    }
+    if bench {
+        for f in crate::bench_fens() {
+            v.push((f.to_string(), vec![]));
+        }
+    }
+    while v.len() < n {
+        let fen = super::walk::SEEDS[rng.below(super::walk::SEEDS.len() as u64) as usize];
+        let mut b = Board::from_fen(fen);
+        let mut moves = vec![];
+        let steps = 2 + rng.below(40);
+        for _ in 0..steps {
+            let legal = b.get_legal_moves();
+            if legal.is_empty() {
+                break;
+            }
+            // now and then shuffle back to create repetitions inside the history
+            let hist = bv::history(&b);
+            let m = if rng.below(5) == 0 && hist.len() >= 3 {
+                let mine = hist[hist.len() - 2];
+                legal
+                    .iter()
+                    .find(|m| m.start == mine.dest && m.dest == mine.start && m.captured_piece.is_none())
+                    .copied()
+                    .unwrap_or(legal[rng.below(legal.len() as u64) as usize])
+            } else {
+                legal[rng.below(legal.len() as u64) as usize]
+            };
+            moves.push(m.to_notation());
+            b.make_move(m);
+        }
+        if b.get_legal_moves().is_empty() {
+            continue;
+        }
+        v.push((fen.to_string(), moves));
+    }
+    v
+}
+
+/// `--mode plain|off|budget|stop|keep|file` `--count N` `--maxdepth D` `--shard i --of n --seed S`
+pub fn search_stream(args: &[String]) {
+    let mode = arg_str(args, "mode").unwrap_or_else(|| "plain".into());
+    let count: usize = arg(args, "count", 40);
+    let maxdepth: u8 = arg(args, "maxdepth", 3);
+    let shard: usize = arg(args, "shard", 0);
+    let of: usize = arg(args, "of", 1);
+    let seed: u64 = arg(args, "seed", 1);
+    let repeat: usize = arg(args, "repeat", 1);
+    let mut rng = Rng(seed.wrapping_mul(0x1000_0000_01B3).wrapping_add(4242));
+    let pos = positions(&mut rng, count, false);
+    let mut idx = 0usize;
+    let mut mine = |idx: &mut usize| {
+        let r = *idx % of == shard;
+        *idx += 1;
+        r
+    };
+    match mode.as_str() {
+        "file" => {
+            // one case per line: fen | moves | depth | nodes | stop | cache
+            let path = arg_str(args, "cases").unwrap_or_default();
+            for line in std::fs::read_to_string(path).unwrap_or_default().lines() {
+                let f: Vec<&str> = line.split('|').map(str::trim).collect();
+                if f.len() < 6 || !mine(&mut idx) {
+                    continue;
+                }
+                let cache = match f[5] {
+                    "keep" => "keep",
+                    "off" => "off",
+                    _ => "fresh",
+                };
+                run_case(&Case {
+                    fen: f[0].to_string(),
+                    moves: f[1].split_whitespace().map(str::to_string).collect(),
+                    depth: f[2].parse().unwrap_or(1),
+                    nodes: f[3].parse().ok(),
+                    stop: f[4].parse().unwrap_or(0),
+                    cache,
+                });
+            }
+        }
+        "plain" | "off" => {
+            for (fen, moves) in pos.iter().take(count) {
+                if !mine(&mut idx) {
+                    continue;
+                }
+                let d = 1 + (rng.below(u64::from(maxdepth))) as u8;
+                for depth in [d, maxdepth] {
+                    for _ in 0..repeat {
+                        run_case(&Case { fen: fen.clone(), moves: moves.clone(), depth, nodes: None, stop: 0, cache: if mode == "off" { "off" } else { "fresh" } });
+                    }
+                }
+            }
+        }
+        "budget" | "stop" => {
+            // every budget / poll index 1..=N for the full depth-`maxdepth` search of each position
+            let step: u64 = arg(args, "step", 1);
+            for (fen, moves) in pos.iter().take(count) {
+                if !mine(&mut idx) {
+                    continue;
+                }
+                // size of the full search
+                TRANSPOSITION_TABLE.write().unwrap().clear();
+                let Some(board) = setup_board(fen, moves) else { continue };
+                sv::POLLS.store(0, Ordering::Relaxed);
+                sv::STOP_AT_POLL.store(u64::MAX, Ordering::Relaxed);
+                let mut s = Search::new(&board, None);
+                // silence is not possible: the engine prints; mark the calibration run so the driver skips it
+                println!("S calibration");
+                s.search(&SimpleEvaluator, Some(maxdepth));
+                let total = if mode == "budget" { s.get_nodes() } else { sv::POLLS.load(Ordering::Relaxed) };
+                sv::STOP_AT_POLL.store(0, Ordering::Relaxed);
+                println!("X calibration-end total={total}");
+                let off = rng.below(step);
+                let mut k = 1 + off;
+                while k <= total + 1 {
+                    let (nodes, stop) = if mode == "budget" { (Some(k), 0) } else { (None, k) };
+                    run_case(&Case { fen: fen.clone(), moves: moves.clone(), depth: maxdepth, nodes, stop, cache: "fresh" });
+                    k += step;
+                }
+            }
+        }
+        "keep" => {
+            // earlier completed searches of the same position at other depths, in several orders, cache kept
+            for (fen, moves) in pos.iter().take(count) {
+                if !mine(&mut idx) {
+                    continue;
+                }
+                let mut depths: Vec<u8> = (1..=maxdepth).collect();
+                for i in (1..depths.len()).rev() {
+                    let j = rng.below(i as u64 + 1) as usize;
+                    depths.swap(i, j);
+                }
+                let mut first = true;
+                for d in depths {
+                    run_case(&Case { fen: fen.clone(), moves: moves.clone(), depth: d, nodes: None, stop: 0, cache: if first { "fresh" } else { "keep" } });
+                    first = false;
+                }
+            }
+        }
+        _ => {}
+    }
+    println!("END");
+}
